@@ -126,7 +126,13 @@ theorem sniFix_frame (c c' : Dict) (m : Bytes) (h : sniFix c = some c') (hm : (s
   simp only [Option.bind_eq_bind, Option.bind_eq_some_iff] at h
   obtain ⟨sni, -, h⟩ := h
   split at h
-  · split at h <;> first | (cases h; exact dget_dset_ne _ _ _ _ hm) | cases h
+  · split at h
+    · cases h
+    · split at h
+      · simp only [Option.map_eq_some_iff] at h
+        obtain ⟨x, _, rfl⟩ := h
+        exact dget_dset_ne _ _ _ _ hm
+      · cases h; exact dget_dset_ne _ _ _ _ hm
   · cases h; rfl
 
 theorem conn18fields_frame (c : Dict) (m : Bytes)
